@@ -686,10 +686,16 @@ def check_C06(ctx):
 def check_C08(ctx):
     return run_message_property(ctx, dict(
         theorems=["C08_optional_always", "C08_oneof_always", "C08_oneof_enum_always", "C08_oneof_message_never_omitted", "C08_always_message_emits", "C08_always_emits", "C08_message_presence", "C08_presence_round_trip"],
-        suites=lambda c: [_msg_suite(c, 4000, 60000)] + fresh_suites(c, [("msg", ["msg", c.seed + 14, _n(c, 2500, 20000), "presence.proto:"]), ("msg", ["msg", c.seed + 15, _n(c, 3000, 30000), ".proto:"])]) + boundary_suites(c, c.seed + 16, 600),
-        prop={"msg": lambda r: r["impl"] != "PANIC" and r["flags"].get("c08o") == "ok" and r["flags"].get("c08r") == "ok"},
-        tie={"msg": tie_bytes}, spec={"msg": spec_msg}, nontrivial=nontrivial_any, shrink_flag="c08",
-        rule=MSG_RULE + "; projection: presence skeleton (nil-ness, selected oneof member, list lengths) after round trip and as seen by the reference (Has())"))
+        suites=lambda c: [_msg_suite(c, 4000, 60000)] + fresh_suites(c, [("msg", ["msg", c.seed + 14, _n(c, 2500, 20000), "presence.proto:"]), ("msg", ["msg", c.seed + 15, _n(c, 3000, 30000), ".proto:"]),
+                                                                                  ("decv", ["decv", c.seed + 19, _n(c, 3000, 30000), ".proto:"])]) + boundary_suites(c, c.seed + 16, 600),
+        prop={"msg": lambda r: r["impl"] != "PANIC" and r["flags"].get("c08o") == "ok" and r["flags"].get("c08r") == "ok",
+              # presence also survives decoding of encodings no encoder writes (reordered, split, with unknown fields in between):
+              # the decoded value - nil-ness and selected members included - is the reference's
+              "dec": lambda r: r["ist"] == "ok" and r["ost"] == "ok" and r["flags"].get("c02") == "ok"},
+        shrink_keep=lambda rr: rr.get("ost") == "ok",
+        tie={"msg": tie_bytes, "dec": tie_dec_val}, spec={"msg": spec_msg, "dec": spec_dec}, nontrivial=nontrivial_any, shrink_flag="c08",
+        rule=MSG_RULE + "; projection: presence skeleton (nil-ness, selected oneof member, list lengths) after round trip and as seen by the reference (Has()); "
+             "rewritten valid encodings of every fresh type (reordered, split, unknown fields in between) decode to the reference's value, presence included"))
 
 
 def check_C02(ctx):
